@@ -311,13 +311,53 @@ def poly_test(t: ast.AST, env: Dict[str, Poly]) -> Optional[bool]:
     return None if c is None else bool(c)
 
 
+def _has_continue(st: ast.AST) -> bool:
+    """A `continue` of the enclosing loop somewhere inside st (not inside a nested loop or function)."""
+    stack = [st]
+    while stack:
+        n = stack.pop()
+        if isinstance(n, ast.Continue):
+            return True
+        for c in ast.iter_child_nodes(n):
+            if not isinstance(c, (ast.For, ast.While, ast.FunctionDef, ast.Lambda)):
+                stack.append(c)
+    return False
+
+
+def _absorb_continue(block: List[ast.stmt], cont: List[ast.stmt]) -> List[ast.stmt]:
+    """The statement list with every `continue` removed: what would have followed on the paths that do not continue
+    (`cont`) is moved into the branches (copied where two branches fall through)."""
+    out: List[ast.stmt] = []
+    for i, st in enumerate(block):
+        if isinstance(st, ast.Continue):
+            return out
+        if isinstance(st, ast.If) and _has_continue(st):
+            tail = block[i + 1 :] + cont
+            st.body = _absorb_continue(st.body, copy.deepcopy(tail)) or [ast.copy_location(ast.Pass(), st)]
+            st.orelse = _absorb_continue(st.orelse, copy.deepcopy(tail))
+            out.append(st)
+            return out
+        out.append(st)
+    return out + cont
+
+
 def _restructure(stmts: List[ast.stmt], in_loop: bool) -> List[ast.stmt]:
     """`if T: A; continue` + rest (directly in a loop body)  ->  `if T: A else: rest`;
     `if not X: A else: B`  ->  `if X: B else: A`.  Same paths, the shapes the rules read."""
     out: List[ast.stmt] = []
     for i, st in enumerate(stmts):
+        if isinstance(st, ast.For) and isinstance(st.iter, ast.Call) and isinstance(st.iter.func, ast.Name) and st.iter.func.id == "enumerate" and len(st.iter.args) == 1 and not st.iter.keywords and isinstance(st.iter.args[0], ast.Name) and isinstance(st.target, ast.Tuple) and len(st.target.elts) == 2 and all(isinstance(e_, ast.Name) for e_ in st.target.elts) and not any(isinstance(c_, ast.Call) and isinstance(c_.func, ast.Attribute) and c_.func.attr in ("append", "extend", "insert", "pop", "remove", "clear") and isinstance(c_.func.value, ast.Name) and c_.func.value.id == st.iter.args[0].id for b_ in st.body for c_ in ast.walk(b_)):
+            # for i, v in enumerate(xs): BODY  ->  for i in range(len(xs)): v = xs[i]; BODY   (xs keeps its length in BODY)
+            seq_, (iv_, vv_) = st.iter.args[0], st.target.elts
+            st.iter = ast.copy_location(ast.Call(func=ast.Name(id="range", ctx=ast.Load()), args=[ast.Call(func=ast.Name(id="len", ctx=ast.Load()), args=[copy.deepcopy(seq_)], keywords=[])], keywords=[]), st.iter)
+            st.target = ast.copy_location(ast.Name(id=iv_.id, ctx=ast.Store()), iv_)
+            st.body = [ast.copy_location(ast.Assign(targets=[ast.Name(id=vv_.id, ctx=ast.Store())], value=ast.Subscript(value=copy.deepcopy(seq_), slice=ast.Name(id=iv_.id, ctx=ast.Load()), ctx=ast.Load())), st)] + st.body
+            ast.fix_missing_locations(st)
         if isinstance(st, (ast.For, ast.While)):
             st.body = _restructure(st.body, True)
+            # a `continue` left below a nested if: absorbed by moving the rest of the body into the branches
+            if any(_has_continue(b_) for b_ in st.body) and not any(isinstance(x, (ast.Try, ast.With)) and _has_continue(x) for b_ in st.body for x in ast.walk(b_)):
+                st.body = _absorb_continue(st.body, [])
             st.orelse = _restructure(st.orelse, in_loop)
         elif isinstance(st, ast.If):
             if in_loop and st.body and isinstance(st.body[-1], ast.Continue) and not st.orelse and not any(isinstance(x, (ast.Continue, ast.Break)) for b in st.body[:-1] for x in ast.walk(b)):
